@@ -11,6 +11,8 @@ LAYOUTS = {
     "flat": ({"a.txt": b"A", "b.txt": b"B", "c c.txt": b"C", "d": DIR, "d/x.bin": b"X", "d/y.bin": b"Y"}, []),
     "nested-siblings": ({"r.txt": b"R", "A": DIR, "A/a1.txt": b"A1", "A/a2.txt": b"A2", "AB": DIR, "AB/b1.txt": b"B1",
                          "AB/b2.txt": b"B2"}, ["A", "AB"]),
+    # sibling nested roots whose names differ only in case (two different folders on a case-sensitive file system) and a plain folder
+    "nested-case-siblings": ({"r.txt": b"R", "Reel": DIR, "Reel/a1.txt": b"A1", "reel": DIR, "reel/b1.txt": b"B1"}, ["Reel", "reel"]),
 }
 LAYOUTS_X = {
     "nested-three": ({"r.txt": b"R", "A": DIR, "A/a.txt": b"A1", "AB": DIR, "AB/b.txt": b"B1", "B": DIR, "B/c.txt": b"C1",
@@ -48,7 +50,9 @@ def seal(ctx, layout, ancestor, invocation, order, pats=("*.tmp",)):
         first_file = sorted(p for p, c in tree.items() if c is not DIR)[0]
         # every nested root, then the top twice (the second generation of a history that already has an ascmhl folder and
         # child references), then a -sf generation
-        steps = [(r, None) for r in nested] + [("", None), ("", None), ("", first_file)]
+        # ... and a -sf generation that names a FOLDER (its own traversal)
+        first_dir = sorted(p for p, c in tree.items() if c is DIR and p not in nested)[:1]
+        steps = [(r, None) for r in nested] + [("", None), ("", None), ("", first_file)] + [("", d) for d in first_dir]
         for i, (r, sf) in enumerate(steps):
             target = os.path.join(root, r) if r else root
             args, cwd = [target], None
@@ -161,7 +165,7 @@ def main(tier, seed):
         for anc in ANCESTORS:
             for inv in INVOCATIONS:
                 cases.append(dict(common, ancestor=anc, invocation=inv, verify_copy=True))
-        maxn = 4 if name in ("flat", "nested-siblings") else 3
+        maxn = 4 if name in ("flat", "nested-siblings", "nested-case-siblings") else 3
         n = 0
         all_orders = list(orders(layout[0], layout[1], maxn))
         # the ascmhl folders themselves (manifests + chain file) listed in every order as well
